@@ -4,7 +4,7 @@
      kind  : "absent" | "empty" (0 bytes) | "cas" | "dsk" | "raw" (a raw binary) | "junk" (arbitrary bytes)
      files : Seq(FileId)   what the container holds, in order (raw: the files whose data it is)
      big   : a cassette image of at least 161,280 bytes (the size of a disk image)
-   cmd = [tool ("asm" | "util"), sw ("bin" | "cas" | "dsk"), app (--append), named (asm: NAM or --name given),
+   cmd = [tool ("asm" | "util"), sw ("bin" | "cas" | "dsk" | "list" = file_util <path> --list), app (--append), named (asm: NAM or --name given),
           new : Seq(FileId) (the program / the selected files of the source image), srcn : files in the source image]
    Allowed(pre, cmd, need) is the REQUIRED post content (a set: where the properties leave latitude both outcomes are in it).
    need(ids) : whether those files fit on a 35-track disk (Disk.tla accounting), supplied by the instance.            *)
@@ -21,7 +21,8 @@ Allowed(pre, cmd, Fits(_)) ==
       U == {pre}
       W(fs) == {Written(cmd.sw, pre, fs)}
   IN
-  IF cmd.tool = "asm" /\ cmd.sw \in {"cas", "dsk"} /\ ~cmd.named THEN U              \* no name: no cassette / disk file is created
+  IF cmd.sw = "list" THEN U                                                            \* file_util <path> --list only reads
+  ELSE IF cmd.tool = "asm" /\ cmd.sw \in {"cas", "dsk"} /\ ~cmd.named THEN U         \* no name: no cassette / disk file is created
   ELSE IF cmd.tool = "util" /\ cmd.sw = "bin" /\ cmd.srcn # 1 THEN U                \* --to_bin needs exactly one file in the source image
   ELSE CASE pre.kind = "absent" -> IF cmd.sw = "dsk" /\ ~Fits(P) THEN U ELSE W(P)
          [] pre.kind = "empty"  -> IF cmd.app THEN U \cup (IF cmd.sw = "dsk" /\ ~Fits(P) THEN {} ELSE W(P)) ELSE U
@@ -44,6 +45,8 @@ Applies(pre, cmd) == cmd.app /\ ((pre.kind = "cas" /\ cmd.sw = "cas") \/ (pre.ki
 AppendHappens(pre, cmd, post, Fits(_)) == (Applies(pre, cmd) /\ (cmd.sw = "dsk" => Fits(pre.files \o cmd.new))) => post # pre
 \* C15: a disk never holds more than fits; a file that does not fit leaves the host file as it was
 CapacityRespected(pre, cmd, post, Fits(_)) == (post.kind = "dsk" => Fits(post.files)) /\ ((cmd.sw = "dsk" /\ pre.kind = "dsk" /\ ~Fits(pre.files \o cmd.new)) => post = pre)
+\* listing is read-only (beyond the listed properties: the listing command of file_util never changes the image it lists)
+ReadOnly(pre, cmd, post) == cmd.sw = "list" => post = pre
 \* C11 / C16: a new path gets exactly the new files
 NewPathHoldsNew(pre, cmd, post) == (pre.kind = "absent" /\ post # pre) => post.files = cmd.new
 =============================================================================
